@@ -281,7 +281,7 @@ def run_rt(spec, acc):
         rng2 = random.Random(rng.random())
         forward[0] = rng.random() < 0.5
         del incoming[:]
-        sids = itertools.count(i * 100000)
+        sids = itertools.count((i % 20000) * 100000)     # stays below 2**31
         sends = {}
         records, mrecords = [], []
         tclocks = [(TempoClock(tp), tp) for tp in
